@@ -431,12 +431,41 @@ pub fn run(ctx: &Ctx) -> i32 {
         }
     });
     let mut acc = acc;
+    // documents whose TOML rendering is EXACTLY a power of two long, one byte less, one byte more (anything
+    // that hands the document to the writer in pieces has its boundary cases here)
+    let mut exact = vec![];
+    for p in [12u32, 13, 14, 15, 16, 17, 18, 20] {
+        for d in [-1i64, 0, 1] {
+            exact.push(((1i64 << p) + d) as usize);
+        }
+    }
+    exact.extend([3 * 65536, 5 * 65536, 65536 + 4096]);
+    let ex_acc = crate::par::run(exact.len(), 1, |i, acc| {
+        let len = exact[i];
+        let Some(j) = crate::gen::exact_output_doc(Fmt::Toml, len) else {
+            acc.count("exact_length_document_not_constructible");
+            return;
+        };
+        let want = match crate::read::json::read_many(&j) { Ok(v) if v.len() == 1 => v[0].0.clone(), _ => return };
+        for (mode, short) in [(Mode::Slice, None), (Mode::Reader(Sched::All), None), (Mode::Slice, Some(4096usize)), (Mode::Reader(Sched::Fixed(8192)), Some(70000))] {
+            acc.evals += 1;
+            acc.count("documents_with_an_exact_output_length");
+            let w = match short { Some(m) => MonWriter::new().with_short(len as u64, m), None => MonWriter::new() };
+            let (verdicts, wlog) = run_history(&[Call { input: j.clone(), from: Some(Fmt::Json), mode: mode.clone() }], Fmt::Toml, w, false);
+            let ok = verdicts[0].is_ok() && wlog.bytes.len() == len && crate::read::toml::read(&wlog.bytes).map(|got| toml_match(&want, &got)).unwrap_or(false);
+            if !ok {
+                acc.violation(Violation { sig: format!("a document whose TOML rendering is exactly {} bytes is not written in full", if len % 65536 == 0 { "a multiple of 65536".to_string() } else { len.to_string() }), case: json!({"exact_output_length": len, "mode": mode.describe(), "short_writes": short}), observed: format!("{}; {} bytes written; reads back: {}", verdicts[0].show(), wlog.bytes.len(), crate::read::toml::read(&wlog.bytes).map(|g| toml_match(&want, &g).to_string()).unwrap_or_else(|e| e)), expected: format!("Ok, {len} bytes that read back as the document") });
+                return;
+            }
+        }
+    });
+    acc.merge(ex_acc);
     let n_cli = ctx.size(400, 8000);
     let cli = crate::par::run(n_cli, 4, |i, acc| cli_case(seed, i, acc));
     acc.merge(cli);
-    let rule = format!("{} histories of 1-3 translate calls on one Translator(to=TOML), 0-3 documents per call, documents: representable tables, every non-table root type, a null / oversized integer / non-string key / binary planted at a random path of a generated tree, keys from the hostile string pools (all quoting styles), arrays of tables; sources JSON/MessagePack/YAML/TOML, slice and reader, explicit and detected, every third history through a short-write writer (1-7 bytes per call), every fourth once more to a writer that fails ONE write call after k bytes with a transient error kind (WouldBlock, Interrupted, TimedOut, Other, WriteZero) and then accepts again; plus {} command-line invocations `xt -t toml` over 1-3 inputs (files and stdin) judged by the CLI reference model and the TOML reader; distinct non-trivial = distinct input sequences", n, n_cli);
+    let rule = format!("{} histories of 1-3 translate calls on one Translator(to=TOML), 0-3 documents per call, documents: representable tables, every non-table root type, a null / oversized integer / non-string key / binary planted at a random path of a generated tree, keys from the hostile string pools (all quoting styles), arrays of tables; sources JSON/MessagePack/YAML/TOML, slice and reader, explicit and detected, every third history through a short-write writer (1-7 bytes per call), every fourth once more to a writer that fails ONE write call after k bytes with a transient error kind (WouldBlock, Interrupted, TimedOut, Other, WriteZero) and then accepts again; documents whose TOML rendering is exactly 2^12..2^20 bytes (and one less, one more, and other multiples of 64 KiB) to plain and short-write writers; plus {} command-line invocations `xt -t toml` over 1-3 inputs (files and stdin) judged by the CLI reference model and the TOML reader; distinct non-trivial = distinct input sequences", n, n_cli);
     ev::finish(
-        Finish { ctx, level: "exploration", rule, assumptions: vec!["after a first document of a kind that may be accepted or refused (non-string keys, non-finite floats, float32) the rest of the history is judged by the byte invariant only".into(), "non-string keys, binary and non-finite floats may be accepted or refused".into()], extra: serde_json::Map::new(), exhaustive: false, min_distinct: 1000, must_reach: vec![("cli_second_input_refused".into(), 20), ("TOML_SECOND_USE_REFUSED".into(), 100), ("TOML_NON_TABLE_ROOT_REFUSED".into(), 100), ("histories_one_document_written".into(), 100), ("doc_kind_planted_null".into(), 100), ("doc_kind_planted_oversized_int".into(), 100), ("histories_with_a_transient_write_error".into(), 1000), ("transient_write_error_left_a_prefix".into(), 100)] },
+        Finish { ctx, level: "exploration", rule, assumptions: vec!["after a first document of a kind that may be accepted or refused (non-string keys, non-finite floats, float32) the rest of the history is judged by the byte invariant only".into(), "non-string keys, binary and non-finite floats may be accepted or refused".into()], extra: serde_json::Map::new(), exhaustive: false, min_distinct: 1000, must_reach: vec![("cli_second_input_refused".into(), 20), ("TOML_SECOND_USE_REFUSED".into(), 100), ("TOML_NON_TABLE_ROOT_REFUSED".into(), 100), ("histories_one_document_written".into(), 100), ("doc_kind_planted_null".into(), 100), ("doc_kind_planted_oversized_int".into(), 100), ("histories_with_a_transient_write_error".into(), 1000), ("documents_with_an_exact_output_length".into(), 80), ("transient_write_error_left_a_prefix".into(), 100)] },
         acc,
     )
 }
